@@ -24,6 +24,10 @@ def dispatch (line : String) : String :=
     | "norm" => Norm.runLine payload
     | "nbyte" => Norm.byteLine payload
     | "codec" => Codec.runLine payload
+    | "admit" => Codec.admitLine payload
+    | "cookie" => Codec.cookieLine payload
+    | "uncookie" => Codec.uncookieLine payload
+    | "cookiebyte" => Codec.cookieByteLine payload
     | "ptr" => Ptr.runLine payload
 
     | "conv" => convLine payload
